@@ -1547,8 +1547,13 @@ class PreviewTree:
         try:
             return self._transform._new_executability[trans_id]
         except KeyError:
+            # The file keeps the mode it has in the original tree, where it
+            # lives at its old path (it may have been renamed).
+            tree_path = self._transform.tree_path(trans_id)
+            if tree_path is None:
+                return False
             try:
-                return self._transform._tree.is_executable(path)
+                return self._transform._tree.is_executable(tree_path)
             except FileNotFoundError:
                 return False
             except NoSuchFile:
